@@ -62,6 +62,8 @@ pub struct NodeCtx {
     pub dir_desc: AtomicBool,
     pub sleeps: AtomicU64,
     pub events: Mutex<Vec<String>>,
+    /// true = the node reads the wall clock (real-transport conformance stage, one node per process)
+    pub real_clock: AtomicBool,
 }
 
 pub enum LinkCmd {
@@ -139,6 +141,7 @@ impl NodeCtx {
             dir_desc: AtomicBool::new(false),
             sleeps: AtomicU64::new(0),
             events: Mutex::new(vec![]),
+            real_clock: AtomicBool::new(false),
         })
     }
     pub fn install(self: &Arc<Self>) {
@@ -151,6 +154,9 @@ impl Hooks for NodeCtx {
         Some(self.dir.to_str().unwrap().to_string())
     }
     fn now_nanos(&self) -> Option<u64> {
+        if self.real_clock.load(Ordering::SeqCst) {
+            return None;
+        }
         Some(self.clock.fetch_add(1, Ordering::SeqCst) + 1)
     }
     fn sleep(&self, _dur: std::time::Duration, _site: &'static std::panic::Location<'static>) -> bool {
@@ -194,6 +200,9 @@ impl Hooks for NodeCtx {
 /// Process-global hook object: threads spawned by nun-db itself (link threads) have no
 /// thread-local hooks; they are routed to their node's context through the Databases pointer.
 pub struct GlobalHooks {}
+/// false = outbound replication links are NOT taken over: the node's link threads talk real TCP
+/// (real-transport conformance stage, `nunmc realnode`)
+pub static LINK_TAKEOVER: AtomicBool = AtomicBool::new(true);
 pub static REGISTRY: Mutex<Vec<(usize, Arc<NodeCtx>)>> = Mutex::new(Vec::new());
 
 pub fn ctx_of(dbs: &Arc<Databases>) -> Option<Arc<NodeCtx>> {
@@ -230,6 +239,9 @@ impl Hooks for GlobalHooks {
         client: &mut Client,
         receiver: &mut Receiver<String>,
     ) -> bool {
+        if !LINK_TAKEOVER.load(Ordering::SeqCst) {
+            return false;
+        }
         let ctx = match ctx_of(dbs) {
             Some(c) => c,
             None => return true, // node already gone: behave like a dead link
